@@ -437,10 +437,46 @@ impl ColorPainter for RecDefault {
 
 const EV_CAP: usize = 400_000;
 
+/// the paint call in flight (start time, description): a watchdog thread turns a call that does not
+/// return within PAINT_BUDGET_S into an oracle failure ("painting terminates") and ends the run,
+/// instead of hanging the whole check (a non-terminating traversal cannot be interrupted in-process)
+static IN_FLIGHT: std::sync::Mutex<Option<(Instant, String)>> = std::sync::Mutex::new(None);
+const PAINT_BUDGET_S: f64 = 20.0;
+
+fn start_watchdog(dir: std::path::PathBuf) {
+    std::thread::spawn(move || loop {
+        std::thread::sleep(std::time::Duration::from_millis(250));
+        let cur = IN_FLIGHT.lock().unwrap().clone();
+        if let Some((t0, what)) = cur {
+            if t0.elapsed().as_secs_f64() > PAINT_BUDGET_S {
+                let mut st = Stats::new();
+                st.evaluations = 1;
+                st.oracle_failure(json!({"key": format!("timeout-{:016x}", fnv(what.as_bytes())),
+                    "why": format!("ColorGlyph::paint did not return within {} s (bounded termination fails)", PAINT_BUDGET_S),
+                    "input": what}));
+                st.v.insert("model_cases".into(), 0.into());
+                st.v.insert("shards".into(), 0.into());
+                // stale shards of an earlier run must not be evaluated against this aborted run
+                if let Ok(rd) = std::fs::read_dir(&dir) {
+                    for e in rd.flatten() {
+                        if e.file_name().to_string_lossy().starts_with("cases_") {
+                            let _ = std::fs::remove_file(e.path());
+                        }
+                    }
+                }
+                st.write(&dir, "aborted by the watchdog: one paint call exceeded the time budget");
+                println!("watchdog: paint call exceeded {} s: {}", PAINT_BUDGET_S, what.chars().take(300).collect::<String>());
+                std::process::exit(0);
+            }
+        }
+    });
+}
+
 /// result class: 0 Ok, 1 ParseError, 2 GlyphNotFound, 3 PaintCycleDetected, 4 DepthLimitExceeded,
 /// 5 no colour glyph for this id, 9 panic
-fn run_paint(bytes: &[u8], gid: u32, mode: u8, default_fill_glyph: bool, coords: &[F2Dot14]) -> (u8, Vec<Ev>, bool, f64) {
+fn run_paint(bytes: &[u8], gid: u32, mode: u8, default_fill_glyph: bool, coords: &[F2Dot14], what: &str) -> (u8, Vec<Ev>, bool, f64) {
     let t0 = Instant::now();
+    *IN_FLIGHT.lock().unwrap() = Some((t0, format!("gid={} client_mode={} {}", gid, mode, what)));
     let bytes = bytes.to_vec();
     let coords = coords.to_vec();
     let r = catch(move || {
@@ -468,6 +504,7 @@ fn run_paint(bytes: &[u8], gid: u32, mode: u8, default_fill_glyph: bool, coords:
         (cls, rec.ev, rec.cap == 0)
     });
     let dt = t0.elapsed().as_secs_f64();
+    *IN_FLIGHT.lock().unwrap() = None;
     match r {
         Ok((c, e, o)) => (c, e, o, dt),
         Err(_) => (9, vec![], false, dt),
@@ -767,6 +804,7 @@ fn main() {
     let dir = out_dir(&args, "C13");
     let mut rng = Rng::new(seed);
     let mut st = Stats::new();
+    start_watchdog(dir.clone());
     let mut cw = CaseWriter::new(
         &dir,
         "From Coq Require Import NArith List. Import ListNotations. Open Scope N_scope.\nFrom FV Require Import Lib.Cases C13.Model.",
@@ -789,7 +827,7 @@ fn main() {
         for gid in gids {
             for mode in modes {
                 let coords = rng.pick(&coords_sets).clone();
-                let (cls, ev, overflow, dt) = run_paint(&bytes, *gid, *mode, false, &coords);
+                let (cls, ev, overflow, dt) = run_paint(&bytes, *gid, *mode, false, &coords, &coq_g);
                 st.evaluations += 1;
                 max_dt = max_dt.max(dt);
                 max_ev = max_ev.max(ev.len());
@@ -822,7 +860,7 @@ fn main() {
                     }
                 }
                 // a client with the default fill_glyph sees the expansion of the same stream
-                let (cls2, ev2, _, _) = run_paint(&bytes, *gid, *mode, true, &coords);
+                let (cls2, ev2, _, _) = run_paint(&bytes, *gid, *mode, true, &coords, &coq_g);
                 if cls2 != cls || ev2 != expand_default(&ev) {
                     fail("default-fill_glyph client does not see the expansion of the overriding client's stream", st);
                 }
@@ -1045,7 +1083,7 @@ fn main() {
         let g = path_graph(&mut rng, &vec![Edge::Glyph; k], None, &[]);
         // make the innermost collector fail: leaf = composite
         if let Some(bytes) = compile(&g) {
-            let (cls, ev, _, dt) = run_paint(&bytes, 0, 0, false, &[]);
+            let (cls, ev, _, dt) = run_paint(&bytes, 0, 0, false, &[], "f6 probe");
             probe.push(json!({"nested_paint_glyph": k, "class": cls, "callbacks": ev.len(), "seconds": dt}));
         }
     }
